@@ -102,5 +102,16 @@ func checks() map[string]CheckDef {
 		Outside: []string{"torn writes inside one SQLite transaction (SQLite's atomicity is trusted)", "migrations at restart (golang-migrate)", "several faults in one history; redelivery of a whole interrupted branch in another order", "genesis insertion / import at restart (see C17 kernels)"},
 		Stubs:   []string{"commit fault injection: symbolically a counter in the sqlx model; natively (witness and counterexample replays) a database/sql driver wrapper around go-sqlite3 that fails or panics at the chosen commit"},
 	})
+	add(CheckDef{
+		ID: "C09", Level: "model_checking",
+		Runs: []HRun{
+			{Pkg: "internal/zzverif/c09", Func: "HarnessRouteTable", Quick: [][]int64{{1, 1}, {1, 0}, {0, 1}, {0, 0}}, Labels: []string{"C09/only-allowed-routes-outside-api-prefix", "C09/profiling-only-when-enabled", "C09/routes-registered"}},
+			{Pkg: "internal/zzverif/c09", Func: "HarnessAuth", Quick: [][]int64{{1, 1, 1}, {0, 0, 1}}, Thorough: [][]int64{{1, 1, 2}, {1, 0, 3}, {0, 1, 1}, {0, 0, 2}},
+				Labels: []string{"C09/unauthenticated-gets-structured-401-before-any-handler-logic", "C09/authenticated-is-let-through", "C09/auth-disabled-routes-reachable-without-credentials", "C09/api-routes-registered"}},
+		},
+		Bounds:  []string{"every route that endpoints.SetupRoutes / metrics.Register / websocket.SetupEntrypoint register on the working tree (enumerated at run time) x {use_auth} x {debug_profiling}", "Authorization header = 0..3 space-separated space-free atoms, each an arbitrary string (this is every header value with at most two spaces, incl. empty parts)", "admin token an arbitrary non-empty space-free string; tokens table of k arbitrary rows (quick k=1, thorough k<=3)"},
+		Outside: []string{"gin's own route matching and net/http (routes are addressed by their pattern)", "metrics route (metrics are disabled in the harness)", "the websocket connect handshake (C10)", "header values with three or more spaces (all are refused by the same len(parts) != 2 test)"},
+		Stubs:   []string{"gin.Context modelled (Param/Query/GetHeader/Bind*/JSON/Abort*/Set/Get/Next); gin's RouterGroup code runs from source, Engine.addRoute is intercepted", "wrapped net/http handlers (swagger, pprof, websocket) are opaque handlers answering 200"},
+	})
 	return m
 }
